@@ -59,19 +59,18 @@ type Task struct {
 	state TaskState
 	goid  uint64
 
-	spin       int   // scheduling points since the task last blocked
-	idleJumped bool  // the clock has been moved ten minutes past idleFrom
-	idleOnly   bool  // while awaiting quiescence: nothing but ticker firings have been pending since idleFrom
-	idleTicks  int   // ticker-only clock jumps since then
-	idleFrom   int64 // ... and the virtual time at which it began
-	blockWhat  string
-	blockObj   any
-	pcs        [10]uintptr
-	npcs       int
-	createPCs  [6]uintptr
-	ncreate    int
-	spawnedAt  int64
-	prio       int
+	spin      int   // scheduling points since the task last blocked
+	idleOnly  bool  // while awaiting quiescence: nothing but ticker firings have been pending since idleFrom
+	idleTicks int   // ticker-only clock jumps since then
+	idleFrom  int64 // ... and the virtual time at which it began
+	blockWhat string
+	blockObj  any
+	pcs       [10]uintptr
+	npcs      int
+	createPCs [6]uintptr
+	ncreate   int
+	spawnedAt int64
+	prio      int
 
 	Panic      any
 	PanicStack string
